@@ -1246,26 +1246,10 @@ func dupStmt(pat []string, nargs, route, variant, argIdx int) []node {
 		body = append(body, sexpr(xlog(xvar("b"))))
 	}
 	body = append(body, sexpr(xlog(xget(xvar("arguments"), "length"))))
-	// arguments[i] only where ES5 and otto agree (finding C01-arguments-dup-param: otto aliases an EARLIER occurrence of a
-	// repeated name too): i is not followed by a later parameter of the same name that also received an argument
-	lim := len(pat)
-	if nargs < lim {
-		lim = nargs
-	}
-	var safe []int
-	for i := 0; i < nargs; i++ {
-		ok := true
-		for j := i + 1; j < lim && i < lim; j++ {
-			if pat[j] == pat[i] {
-				ok = false
-			}
-		}
-		if ok {
-			safe = append(safe, i)
-		}
-	}
-	if len(safe) > 0 {
-		i := safe[argIdx%len(safe)]
+	// arguments[i] at any index that received an argument, also an EARLIER occurrence of a repeated name (10.6 step 11.c:
+	// not aliased; finding C01-arguments-dup-param, fixed by bf94f2a)
+	if nargs > 0 {
+		i := argIdx % nargs
 		body = append(body, node{fmt.Sprintf("log(arguments[%d]);", i), fmt.Sprintf("(JExpr (XLog (XIdx (XVar %s) (XLit (WNum %d)))))", cstr("arguments"), i)})
 	}
 	if variant == 1 { // a var of the same name changes nothing (10.5 step 8)
